@@ -40,6 +40,18 @@ def configs(tier):
                     out.append({"scheme": scheme, "limit": limit, "backups": backups, "overwrite": 1, "mode": "a",
                                 "remove-old": 1, "freq": freq, "interval": interval, "daily": daily, "tz": "gmt",
                                 "start": start, "plant": 0})
+    # file-name shapes (no extension, dotted stem, start date appended by the sink) and a second rotating sink in the same
+    # directory, under time rotation with size pressure and a backup limit
+    for freq, interval, daily in (("hour", 1, "00:00"), ("daily", 1, "02:30")):
+        start = starts_for(freq, daily)[0]
+        for scheme in ("index", "date", "datetime"):
+            for extra in ({"name": "app"}, {"name": "app.v1.log"}, {"name": "app+date.log"}, {"aux": 1}):
+                if tier == "quick" and freq == "daily" and extra.get("name") in ("app.v1.log", "app+date.log"):
+                    continue
+                c = {"scheme": scheme, "limit": 512, "backups": 1, "overwrite": 1, "mode": "a", "remove-old": 1, "freq": freq,
+                     "interval": interval, "daily": daily, "tz": "gmt", "start": start, "plant": 0}
+                c.update(extra)
+                out.append(c)
     # local time zones (daily rotation across DST changes, non-hour offsets)
     # start instants: 07:00 UTC of the day before a DST transition, and one hour before the transition itself
     zones = [("America/New_York", [1709967600, 1710050400]), ("Australia/Lord_Howe", [1712300400, 1712415600]),
@@ -58,7 +70,7 @@ def configs(tier):
 def run(ctx):
     ctx.rule = ("all non-decreasing timestamp sequences (gaps 0, 1s, period-1, period, period+1, 3 periods+7s, 26h) with "
                 "optional size pressure and append restarts, up to the depth bound, per configuration (frequency x interval "
-                "x daily time x start instant relative to the grid x naming scheme x size limit x backups x zone); after "
+                "x daily time x start instant relative to the grid x naming scheme x size limit x backups x zone; plus file-name shapes and a second rotating sink in the directory); after "
                 "every step the directory must equal the reference that rotates exactly at the configured grid points; "
                 "distinct = canonical states")
     exe = vf.build("rot", c14.SRC, c14.FLAGS)
